@@ -654,8 +654,10 @@ func (em *emitter) emitCallNode(call *ast.Call, goStmt bool, deferStmt bool, toF
 		return regs, types
 	}
 
-	// Scriggo-defined function (identifier).
-	if ident, ok := call.Func.(*ast.Identifier); ok && !em.fb.declaredInFunc(ident.Name) {
+	// Scriggo-defined function (identifier). A variable of an enclosing
+	// function, as a macro declared in a body, hides a function with the same
+	// name made available by an import.
+	if ident, ok := call.Func.(*ast.Identifier); ok && !em.fb.declaredInFunc(ident.Name) && !funTi.Addressable() {
 		if fn, ok := em.fnStore.availableScriggoFn(em.pkg, ident.Name); ok {
 			stackShift := em.fb.currentStackShift()
 			regs, types := em.prepareCallParameters(fn.Type, call.Args, callOptions{callHasDots: call.IsVariadic})
